@@ -405,20 +405,20 @@ INT64 = (" Go's int64 arithmetic: Model/Ops64.v redoes the operation's arithmeti
          "library's arithmetic inside that range; outside it a computed witness shows the two differ (%s); the 64-bit model is "
          "what the harness runs on values near +-2^63 (families *.huge), wrapped results included.")
 ADDENDA = {
-    "C01": (" The model's literals (separator, emphasis and font tags, escapes) are proved equal to the constants and string "
-            "literals of the Go source regenerated on every run (C01_constants_from_source, tools/genconsts).", ""),
-    "C02": (" Keywords, setting names, the two regexp patterns the tag/timestamp matchers were transcribed from and the default "
-            "style id are proved equal to the constants of the Go source regenerated on every run (C02_constants_from_source).", ""),
+    "C01": (" The model's time separator and byte order mark are proved equal to the named constants of the Go source regenerated "
+            "on every run (C01_constants_from_source, tools/genconsts; literals inside function bodies are deliberately not tied).", ""),
+    "C02": (" The timestamp-map header, the time separator and the default style id are proved equal to the named constants of the "
+            "Go source regenerated on every run (C02_constants_from_source).", ""),
     "C03": (" A line break inside a start tag of a paragraph's content (between the element name and an attribute, or between "
             "attributes) is one of the renderings (C03_read_rendered_bytes_go; found false of the library by the second audit and "
             "repaired there, repo 45c3eea; a line break inside a quoted attribute value of a span stays excluded by bytes_ok_go); "
             "frame-based clock times carry their int64 bound (C03_time_clock_frames_int64); the 24 tts: attribute names in struct "
-            "order, the language table, element names and the two time regexps are proved equal to the struct tags, map entries "
-            "and patterns of the Go source regenerated on every run (C03_constants_from_source).",
+            "order, the language table and the begin/end/tt names are proved equal to the struct tags and map entries "
+            "of the Go source regenerated on every run (C03_constants_from_source).",
             " There is no C03_write_is_rendering: the rendering skeleton always has the three head sections, the writer omits "
             "empty ones (C03.v comment); the writer's output is covered by C03_write_read_bytes_go and the independent decoder."),
-    "C04": (" The column names, script-info keys, section names, event categories, cell literals and the override-block regexp are "
-            "proved equal to the constants of the Go source regenerated on every run (C04_constants_from_source); event style "
+    "C04": (" The 25 style column names, 15 script-info keys, 11 event column names and the Dialogue category are "
+            "proved equal to the named constants of the Go source regenerated on every run (C04_constants_from_source); event style "
             "names the styles section does not declare are generated (the cue then has no style reference).", ""),
     "C05": (" The writer's bytes are one of the renderings of the reading theorem, for open subtitling and for teletext rows with "
             "the start box written or omitted (C05_write_is_rendering_open/_teletext, C05_write_denotes_*), so C05_read_rendered "
